@@ -176,9 +176,14 @@ type Exec struct {
 	abortWith interface{}
 
 	// locks and monitor
-	locks   map[*Value]*lockState
-	guards  []*guardSpec
-	lockLog []string
+	locks  map[*Value]*lockState
+	guards []*guardSpec
+	// lockset monitor: cells/maps read without a lock, and cells/maps written under the lock
+	unlockedReads    map[*Value]string
+	guardedWrites    map[*Value]bool
+	unlockedMapReads map[*Map]string
+	guardedMapWrites map[*Map]bool
+	lockLog          []string
 
 	fnSeen map[string]bool
 	reach  map[string]bool
@@ -964,6 +969,8 @@ func (x *Explorer) newExec(w *Worker, it Item) *Exec {
 	e.inputW = map[string]int{}
 	e.freeVals = map[string]uint64{}
 	e.preemptBudget, e.preemptions = 0, 0
+	e.unlockedReads, e.guardedWrites = map[*Value]string{}, map[*Value]bool{}
+	e.unlockedMapReads, e.guardedMapWrites = map[*Map]string{}, map[*Map]bool{}
 	e.locks = map[*Value]*lockState{}
 	e.fnSeen = w.st.Fns
 	e.reach = map[string]bool{}
